@@ -27,6 +27,7 @@ def run(prog, chk):
     C.wrappers(prog, chk, "C03.w", ("List", "PoolList"))
     C.lockstep_equality(prog, chk, "C03.g", ("List",))
     sort_early_out(prog, chk, "C03.i")
+    C.counting_against_moving_bound(prog, chk, "C03.j", SEQ + ("Array",))
     # `a.append(a)` / `l.append(l)` / `a.append(a[0])` are operation histories of this property as well: the argument is part of the
     # sequence that the operation reallocates or grows (rule shared with C04.e)
     c04_alias.alias_rules(prog, chk, "C03.h")
